@@ -1,3 +1,4 @@
+@delay.setter
 def spec(self, value):
     DelayedMixin.delay.fset(self, value)
     self.clear()
